@@ -2,6 +2,7 @@
 //! Every subcommand drives the PUBLIC API only and writes one ndjson event per call.
 mod drv_br;
 mod drv_head;
+mod drv_req;
 mod fx;
 mod drv_bw;
 mod lex;
@@ -45,6 +46,9 @@ fn main() {
         "c05" => extra = drv_head::c05(&o, &mut t),
         "c20" => extra = drv_head::c20(&o, &mut t),
         "c06" => extra = drv_head::c06(&o, &mut t),
+        "c02" => extra = drv_req::c02(&o, &mut t),
+        "c16" => extra = drv_req::c16(&o, &mut t),
+        "c17" => extra = drv_req::c17(&o, &mut t),
         _ => {
             eprintln!("unknown driver {}", drv);
             std::process::exit(2);
